@@ -302,6 +302,15 @@ def escapey_strings(max_size=10):
     return st.lists(st.one_of(st.sampled_from(ESCAPE_BYTES), st.integers(0x20, 0x7E)), min_size=1, max_size=max_size).map(bytes)
 
 
+# byte sequences that look like UTF-8 but are not (overlong forms - C0 80 is "modified UTF-8" for U+0000 -, encoded surrogates,
+# code points beyond U+10FFFF, 5/6-byte forms, truncated sequences, BOM and non-characters in the middle of a string)
+ODD_SEQUENCES = [b"\xc0\x80", b"\xc1\xbf", b"\xe0\x80\x80", b"\xf0\x80\x80\x80", b"\xed\xa0\x80", b"\xed\xbf\xbf", b"\xf4\x90\x80\x80",
+                 b"\xf8\x88\x80\x80\x80", b"\xfc\x84\x80\x80\x80\x80", b"\xfe\xff", b"\xff\xfe", b"\xef\xbb\xbf", b"\xef\xbf\xbe", b"\xc2", b"\xe2\x82",
+                 b"\xf0\x9f\x98", b"\x80", b"\xbf\x80"]
+
+
 def invalid_utf8_strings(max_size=10):
-    return st.lists(st.one_of(st.sampled_from([0x80, 0xBF, 0xC0, 0xC1, 0xF5, 0xFF, 0xED, 0xA0, 0xE0, 0x9F, 0xF4, 0x90]), st.integers(0x20, 0x7E)),
-                    min_size=1, max_size=max_size).map(bytes)
+    return st.lists(st.one_of(st.sampled_from([0x80, 0xBF, 0xC0, 0xC1, 0xF5, 0xFF, 0xED, 0xA0, 0xE0, 0x9F, 0xF4, 0x90]).map(lambda c: bytes([c])),
+                              st.integers(0x20, 0x7E).map(lambda c: bytes([c])),
+                              st.sampled_from(ODD_SEQUENCES)),
+                    min_size=1, max_size=max_size).map(b"".join)
